@@ -108,6 +108,7 @@ def run(ck):
                 cand = names + [mutate(rng, x) for x in names[:6]] + [b"", b"absent"]
                 for prev_p, prev_db in files[:files.index((p, db))]:
                     cand += dbgen.all_names(prev_db)[:4]
+                cand = [x for x in cand if b"\x00" not in x]      # the lookup interface takes a C string
                 for nm in cand:
                     for lk in LKS:
                         if rng.random() < (0.5 if quick else 1.0):
